@@ -11,6 +11,7 @@ from __future__ import annotations
 
 import asyncio
 import itertools
+import math
 
 from aioslsk.protocol import messages as M
 from aioslsk.exceptions import PeerConnectionError
@@ -58,7 +59,7 @@ def cell_plan(mode, direct, indirect, ports, prefer, typ='P', seed=1, **kw):
         'mode': mode, 'direct': direct, 'indirect': indirect, 'ports': ports, 'prefer': prefer, 'typ': typ,
         'direct_delay': {'fast': 0.02, 'slow': 4.0, 'refused': 0.02, 'blackhole': None, 'reset_on_connect': 0.02}[direct],
         'indirect_delay': {'pierce_fast': 0.05, 'pierce_slow': 30.0, 'cannot': 0.05, 'silence': None, 'server_dead': None,
-                           'server_send_fails': None}[indirect],
+                           'server_send_fails': None, 'pierce_edge': None}[indirect],
         'explicit_addr': False, 'second_call': False, 'cancel': None,
     }
     plan.update(kw)
@@ -83,6 +84,16 @@ def corpus(tier):
         for typ in ('P', 'F'):
             out.append(cell_plan('race', 'fast', 'pierce_fast', 'both', 'clear', typ=typ, direct_delay=0.02,
                                  indirect_delay=0.02 - 0.010, hops=hops))
+    # the pierce arrives in the instant in which the wait for it expires, swept over loop iterations and 1 ns around it
+    for mode in MODES:
+        for hops in range(0, 7):
+            for offset in (0.0, -1e-9, 1e-9):
+                out.append(cell_plan(mode, 'refused', 'pierce_edge', 'both', 'clear', hops=hops, edge_offset=offset,
+                                     indirect_delay=None))
+            # ... and a few units in the last place around it: same loop iteration as the timer, before or after it
+            for ulps in (-3, -1, 1, 3):
+                out.append(cell_plan(mode, 'refused', 'pierce_edge', 'both', 'clear', hops=hops, edge_ulps=ulps,
+                                     indirect_delay=None))
     # connect-back cells
     for accept, ports, prefer, typ in itertools.product(('fast', 'slow', 'refused', 'blackhole'), ('clear', 'obf', 'both', 'none'),
                                                         PREFER, ('P', 'F')):
@@ -139,6 +150,13 @@ def generate(rng, index, tier):
         plan['indirect_delay'] = max(0.0, plan['direct_delay'] + rng.choice([-2, -1, 0, 0, 1, 2]) * base
                                      + rng.choice([0.0, 0.0, 1e-9, -1e-9, 0.0005]))
         plan['hops'] = rng.randint(-8, 8)
+    if precise and indirect in ('pierce_fast', 'pierce_slow') and rng.random() < 0.12:
+        # the pierce arrives in (or 1 ns around) the instant in which the wait for it expires
+        plan['indirect'] = indirect = 'pierce_edge'
+        plan['indirect_delay'] = None
+        plan['edge_offset'] = rng.choice([0.0, 0.0, -1e-9, 1e-9])
+        plan['edge_ulps'] = rng.choice([-3, -2, -1, 0, 1, 2, 3]) if plan['edge_offset'] == 0.0 else 0
+        plan['hops'] = rng.randint(0, 6)
     plan['explicit_addr'] = rng.random() < (0.5 if indirect in ('server_dead', 'server_send_fails') else 0.1)
     plan['second_call'] = rng.random() < 0.15
     if rng.random() < 0.15:
@@ -288,10 +306,43 @@ def _run_request(world: World, plan):
                 if msg is None:
                     return
 
+    async def pierce_edge(relay):
+        # the pierce arrives in the very instant in which the wait for it expires (shifted by plan['edge_offset']
+        # seconds and plan['hops'] loop iterations): either outcome is fine, nothing may be left behind
+        lat = plan['net'].get('base_ms', 5) / 1000.0
+        t_est = loop.time() - 2 * lat + INDIRECT_TIMEOUT
+        await asyncio.sleep(INDIRECT_TIMEOUT - 0.5)
+        whens = [h.when() for h in loop._scheduled if not h.cancelled() and abs(h.when() - t_est) < 0.03
+                 and getattr(h._callback, '__qualname__', '') in ('_release_waiter', 'Timeout._on_timeout')]
+        deadline = min(whens, key=lambda w: abs(w - t_est)) if whens else t_est
+        if whens:
+            world.probe('indirect_deadline_timer_found')
+        deadline += float(plan.get('edge_offset', 0.0)) + int(plan.get('edge_ulps', 0)) * math.ulp(deadline)
+        port, obf = (relay.port, False) if relay.port else (relay.obfuscated_port, True)
+        try:
+            link = await bob.connect(relay.ip, port, obf)
+        except OSError:
+            world.trace('bob.pierce_failed')
+            return None
+        link.writer.transport.conn.c2s.hold_until = deadline
+        await asyncio.sleep(max(deadline - 0.1 - loop.time(), 0.0))
+        world.net.fired['pierce_in_the_instant_of_the_deadline'] += 1
+        link.send(M.PeerPierceFirewall.Request(relay.ticket))
+        link.typ = relay.typ
+        if relay.typ != 'P':
+            link.obfuscated = False
+        link.pierce_ticket = relay.ticket
+        state['pierce_links'].append(link)
+        world.trace('bob.pierced', relay.ticket)
+        bob.spawn(drain_link(link))
+        return link
+
     def on_relay(relay):
         state['relay'].append(relay)
         if indirect in ('pierce_fast', 'pierce_slow'):
             return pierce(relay, plan['indirect_delay'])
+        if indirect == 'pierce_edge':
+            return pierce_edge(relay)
         return None
     bob.connect_to_peer_handler = on_relay
 
@@ -464,11 +515,13 @@ def _run_request(world: World, plan):
                 world.violate('C11.wrong_exception', **facts, got=out)
             continue
         if out == 'returned':
-            if not (direct_works or indirect_works):
+            if not (direct_works or indirect_works or indirect == 'pierce_edge'):
                 world.violate('C11.should_fail', **facts)
         elif out.startswith('raised:'):
             if not isinstance(c.exception, PeerConnectionError):
                 world.violate('C11.wrong_exception', **facts, got=type(c.exception).__name__)
+            elif indirect == 'pierce_edge' and not direct_works:
+                world.probe('pierce_in_the_instant_of_the_deadline_lost')
             elif direct_works or indirect_works:
                 # fallback mode only reaches the indirect path after the direct one failed - still must succeed
                 world.violate('C11.should_succeed', **facts)
